@@ -255,6 +255,31 @@ def main():
     facts["permissionModes"] = ("List Nat", "[" + ", ".join(map(str, modes)) + "]", "permissions.rs from_mode(0o…) constants (decimal)")
     pre = fn_body(perm_src, "precreate_secure_database_file", "fn:precreate_secure_database_file")
     boolean("precreateIsExclusive", bool(re.search(r"create_new\s*\(\s*true\s*\)", pre)), "permissions.rs precreate_secure_database_file uses create_new(true) (O_CREAT|O_EXCL)")
+    # ---- C19: lock-acquisition shape of every storage-trait method (tools/lockshape.py) ------
+    sys.path.insert(0, os.path.dirname(os.path.abspath(__file__)))
+    import lockshape
+    facts.update(lockshape.extract(read, strip_comments, non_test, Missing)[0])
+
+    # ---- C12: replace_group_relays runs DELETE + INSERTs between SAVEPOINT and RELEASE, with
+    # ROLLBACK TO on the error path, inside ONE with_connection section
+    rgr = fn_body(sql_groups, "replace_group_relays", "fn:replace_group_relays(sqlite)")
+    rg = [s.upper() for s in strings(rgr)]
+    sp = [i for i, s in enumerate(rg) if s.startswith("SAVEPOINT ")]
+    rel = [i for i, s in enumerate(rg) if s.startswith("RELEASE SAVEPOINT")]
+    dele = [i for i, s in enumerate(rg) if "DELETE FROM GROUP_RELAYS" in s]
+    ins = [i for i, s in enumerate(rg) if "INSERT INTO GROUP_RELAYS" in s]
+    boolean("sqlReplaceRelaysInSavepoint",
+            bool(sp and rel and dele and ins) and sp[0] < dele[0] < ins[0] < rel[0]
+            and any("ROLLBACK TO SAVEPOINT" in s for s in rg) and len(re.findall(r"with_connection\s*\(", rgr)) == 1,
+            "groups.rs replace_group_relays: SAVEPOINT < DELETE < INSERT < RELEASE, ROLLBACK TO on error, one with_connection")
+    # restore reads the snapshot rows before BEGIN (the reads are outside the transaction)
+    r_strings = strings(restore)
+    first_sel = next((i for i, s in enumerate(r_strings) if s.upper().startswith("SELECT")), None)
+    begin_i = next((i for i, s in enumerate(r_strings) if s.upper().startswith("BEGIN")), None)
+    if first_sel is None or begin_i is None:
+        raise Missing("sql:restore:select/begin")
+    boolean("sqlRestoreReadsBeforeBegin", first_sel < begin_i,
+            "lib.rs restore_group_from_snapshot: the snapshot rows are SELECTed before BEGIN IMMEDIATE")
 
     # ---- emit -------------------------------------------------------------------------------
     lines = ["/- GENERATED by tools/gen_model.py from the current /repo source — do not edit. -/",
